@@ -5,6 +5,9 @@ import (
 	"fmt"
 	"os"
 	"os/exec"
+	"sort"
+	"strings"
+	"sync"
 	"time"
 )
 
@@ -99,12 +102,26 @@ func init() {
 }
 
 func init() {
+	debugCmds["sweep"] = func(args []string) int {
+		// govc sweep <pkg>... : zero-annotation bounds sweep (index, slice, type assertion, explicit panic) of every function
+		w := loadAll()
+		res := w.boundsSweep(args, 10*time.Second)
+		bad := 0
+		for _, r := range res {
+			if !printUnit(r, false) {
+				bad++
+			}
+		}
+		fmt.Printf("sweep: %d functions, %d with undischarged obligations\n", len(res), bad)
+		return 0
+	}
 	debugCmds["structural"] = func(args []string) int {
 		w, err := LoadWorld()
 		if err != nil {
 			fmt.Println(err)
 			return 1
 		}
+		w.LoadRepoContracts()
 		for _, a := range args {
 			if len(a) > 8 && a[:8] == "emitted." {
 				if err := w.LoadEmitted(); err != nil {
@@ -121,4 +138,43 @@ func init() {
 		}
 		return 0
 	}
+}
+
+// boundsSweep verifies every function of the named repository packages in bounds mode (no annotation needed:
+// a function without contract is checked for all argument values).
+func (w *World) boundsSweep(pkgs []string, timeout time.Duration) []*UnitResult {
+	want := map[string]bool{}
+	for _, p := range pkgs {
+		want[p] = true
+	}
+	var keys []string
+	for full, fi := range w.Funcs {
+		if fi.Decl.Body == nil || fi.Obj.Pkg() == nil || !want[fi.Obj.Pkg().Name()] || !strings.HasPrefix(fi.Obj.Pkg().Path(), modPath) {
+			continue
+		}
+		keys = append(keys, full)
+	}
+	sort.Strings(keys)
+	out := make([]*UnitResult, len(keys))
+	sem := make(chan struct{}, 8)
+	var wg sync.WaitGroup
+	for i, k := range keys {
+		i, fi := i, w.Funcs[k]
+		wg.Add(1)
+		go func() {
+			defer wg.Done()
+			sem <- struct{}{}
+			defer func() { <-sem }()
+			out[i] = w.VerifyFunc(fi, w.contractFor(fi), VerifyOpts{Bounds: true, Timeout: timeout,
+				Only: func(n string) bool {
+					if i := strings.LastIndex(n, "@"); i >= 0 && strings.Contains(n[i:], ":") {
+						// a site inside an inlined callee: the callee is swept on its own, for all arguments
+						return false
+					}
+					return strings.Contains(n, "#nopanic:") || strings.Contains(n, ".requires[bounds]")
+				}})
+		}()
+	}
+	wg.Wait()
+	return out
 }
